@@ -345,15 +345,27 @@ def _check_before_write(ctx, mod):
         rets = [r for r in K.walk_no_nested(pgdef.raw)
                 if isinstance(r, ast.Return)]
         fresh = bool(rets)
-        for ret in rets:
-            val = K.rexpr(pgdef, ret.value) if ret.value is not None \
-                else None
+        ldefs = {}
+        for sub in K.walk_no_nested(pgdef.raw):
+            if isinstance(sub, ast.Assign) and len(sub.targets) == 1 and \
+                    isinstance(sub.targets[0], ast.Name):
+                ldefs.setdefault(sub.targets[0].id, []).append(sub.value)
+
+        def current(val):
             if isinstance(val, ast.Dict):
-                continue            # the zero-capacity stand-in
+                return True         # the zero-capacity stand-in
             if isinstance(val, ast.Call) and K.is_meth(val, 'get') and \
                     isinstance(K.recv(val), ast.Call):
-                continue            # <admin partition>().get([...])
-            fresh = False
+                return True         # <admin partition>().get([...])
+            return False
+        for ret in rets:
+            val = ret.value
+            if isinstance(val, ast.Name) and val.id in ldefs:
+                # a result local: everything it may hold was read or built
+                # in this call
+                fresh = fresh and all(current(v) for v in ldefs[val.id])
+            else:
+                fresh = fresh and current(val)
         kept = [sub for sub in K.walk_no_nested(pgdef.raw)
                 if isinstance(sub, (ast.Assign, ast.AugAssign)) and any(
                     isinstance(t, ast.Subscript) and
